@@ -69,6 +69,7 @@ def step (s : State) (op : List String) : List (State × List Ev) :=
   | ["inject", _, b] =>
     let (s', evs) := deliver s (bytesOf b)
     [(s', sortByKey evs)]
+  | ["send", call, _, _, _] => [(s, [Ev.retErr (natOf call) "protoop"])]   -- SUB cannot send, open or closed
   | ["recv", call, ctx] =>
     let call := natOf call
     match getCtx s (natOf ctx) with
